@@ -72,10 +72,16 @@ func (c Cfg) parseVal(raw []byte) (uint64, error) {
 			return 0, err
 		}
 		return strconv.ParseUint(s, 10, 64)
-	case "bytes":
+	case "bytes", "nb":
 		var b []byte
 		if err := json.Unmarshal(raw, &b); err != nil {
 			return 0, err
+		}
+		if c.VKind == "nb" && b == nil {
+			return 1, nil
+		}
+		if c.VKind == "nb" && len(b) == 0 {
+			return 2, nil
 		}
 		return strconv.ParseUint(string(b), 10, 64)
 	case "ptr":
